@@ -89,12 +89,13 @@ func (c *Case) cmpSpec(opKind string, r instResult, timers string, s specResult)
 			// another instance's identifier is refused; the reference accepts it (that is the cross-role replay behind the C01 defect)
 			what = "foreign-identifier-justification-refused-by-node-accepted-by-reference"
 		}
+	case r.res != s.res && strings.HasSuffix(r.res, "wrongMsgIdentifier") && r.rootHex != s.rootHex:
+		// the reference did process the foreign-identifier message (and failed later, e.g. while broadcasting): same deliberate
+		// deviation as above; the two states have diverged, the comparison stops here
+		what = "foreign-identifier-justification-refused-by-node-accepted-by-reference"
 	case r.res != s.res:
-		if !strings.HasSuffix(r.res, "wrongMsgIdentifier") {
-			// differing guard chains for a message both sides refuse: reported, because on this tree the port keeps the guard
-			// order of the reference everywhere except for the identifier guard added by fix e1612ceed
-			what = "reject-tag(" + r.res + " vs " + s.res + ")"
-		}
+		// both sides refuse the message, with different guard chains (e.g. the node wraps the broadcast error): not a
+		// difference in WHICH messages are accepted; the guard order of the port is pinned by the Lean tie theorems instead
 	case !sameBytes(r.bcasts, s.bcasts):
 		what = "broadcasts"
 	case timers != s.timers:
@@ -268,6 +269,11 @@ func (c *Case) applyCtrlStart(h specqbft.Height, value []byte) ctrlResult {
 	defer c.clearFault()
 	r := c.ctrlStart(c.ctrl, c.rc, h, value)
 	c.emit(fmt.Sprintf("cstart h=%d v=%d%s", uint64(h), c.in.Val(value), nf), r.line())
+	if c.c07 {
+		c.c07AfterStart()
+	} else {
+		c.noteEvents()
+	}
 	if c.c02 {
 		c.c02Check("cstart", nil, r, before)
 	}
@@ -288,8 +294,10 @@ func (c *Case) applyCtrlDeliver(m *specqbft.SignedMessage) ctrlResult {
 	}
 	c.roundBefore = roundBefore
 	before := c.decidedMap()
+	pre07 := c.c07Before(m)
 	r := c.ctrlDeliver(c.ctrl, c.rc, m)
 	c.emit(line, r.line())
+	c.c07AfterDeliver(pre07, m, r)
 	if c.c02 {
 		c.c02Check("cdeliver", m, r, before)
 	}
@@ -306,10 +314,15 @@ func (c *Case) applyCtrlDeliver(m *specqbft.SignedMessage) ctrlResult {
 
 func (c *Case) applyCtrlTimeout(h specqbft.Height, round specqbft.Round) ctrlResult {
 	before := c.decidedMap()
+	pre07 := c.c07Before(nil)
 	nf := c.takeFault()
 	defer c.clearFault()
+	if c.armedOK && c.armedH == uint64(h) && c.armedR == uint64(round) {
+		c.armedOK = false // the armed timer fires now
+	}
 	r := c.ctrlTimeout(c.ctrl, c.rc, h, round)
 	c.emit(fmt.Sprintf("ctimeout h=%d r=%d%s", uint64(h), uint64(round), nf), r.line())
+	c.c07AfterTimeout(pre07, h, round, r)
 	if c.c02 {
 		c.c02Check("ctimeout", nil, r, before)
 	}
